@@ -769,6 +769,10 @@ class Terms:
             if "bits" in op:
                 v = op.get("sval", op["bits"])
                 return ("const", v, op["ty"], op.get("def"))
+            if op.get("promoted"):
+                pb = self.b.crate.bodies.get(op["text"])
+                if pb is not None and pb.j["kind"] == "Promoted":
+                    return Terms(pb).local(0)
             return ("const", op["text"], op["ty"], op.get("def"))
         return ("unknown", "op")
 
